@@ -18,6 +18,12 @@ func main() {
 		"on encoded values and on every single-field removal / retyping of them, (3) handler -> real Streamable server (JSON and SSE response modes) -> real client, compared item for item; " +
 		"then on every transport (Streamable JSON / POST-SSE, legacy SSE, stdio) many calls in flight at once (several clients x several goroutines, 1-256 KiB, per-call nonce and checksum), each returned value compared with what that call's handler returned; " +
 		"plus string escaping and SSE framing against the model and a reference reader, handler errors, tool/prompt/resource descriptors. " +
+		"On every transport (Streamable stateful and stateless x JSON / POST-SSE, legacy SSE, stdio) a fixed, seed-independent set of protocol-keyword cases runs first: " +
+		"method / id / result / error / jsonrpc / params as object member names at depth 1-4 and as string values, whole request / response / error / notification look-alikes, " +
+		"and the literal texts \"method\": / \"id\": inside strings and member names - in structured content, _meta, every string field of content items, prompts and resources, " +
+		"handler errors and the tool / prompt / resource descriptors (the random generators draw from the same vocabulary). " +
+		"Every end-to-end call is bounded (context deadline 8 s + 6 s/MiB, plus a watchdog): a call that does not return is the failing input content:<transport>:call-never-returns:<op> " +
+		"(with the value the handler returned and a control on a fresh session), after which the env reconnects and goes on; repeated timeouts shorten the ceiling and finally skip the transport (counted). " +
 		"non-trivial = a distinct case in which the decoder (or the end-to-end call) accepted the value",
 		Run: run})
 }
